@@ -101,3 +101,48 @@ func VerifWriteRecord(c *Conn, typ uint8, data []byte) error {
 	_, err := c.writeRecordLocked(recordType(typ), data)
 	return err
 }
+
+// VerifWriteTLS13TagOnlyRecord writes one TLS 1.3 record that authenticates under c's current
+// write keys but whose inner plaintext is EMPTY (not even the content-type byte): ciphertext =
+// the AEAD tag alone. No honest sender produces it; a peer holding the keys can.
+func VerifWriteTLS13TagOnlyRecord(c *Conn) error {
+	c.out.Lock()
+	defer c.out.Unlock()
+	a, ok := c.out.cipher.(aead)
+	if !ok || c.vers != VersionTLS13 {
+		return errors.New("verif: not a TLS 1.3 AEAD connection")
+	}
+	hdr := []byte{byte(recordTypeApplicationData), 3, 3, 0, byte(a.Overhead())}
+	rec := a.Seal(hdr[:5:5], c.out.seq[:], nil, hdr[:5])
+	c.out.incSeq()
+	_, err := c.write(rec)
+	return err
+}
+
+// VerifSendKeyUpdatesCoalesced makes c send n TLS 1.3 KeyUpdate messages in ONE record (legal:
+// handshake messages may be coalesced) and switches its outgoing traffic secret n times.
+func VerifSendKeyUpdatesCoalesced(c *Conn, n int) error {
+	cipherSuite := cipherSuiteTLS13ByID(c.cipherSuite)
+	if cipherSuite == nil {
+		return errors.New("verif: not a TLS 1.3 connection")
+	}
+	c.out.Lock()
+	defer c.out.Unlock()
+	var rec []byte
+	for i := 0; i < n; i++ {
+		msgBytes, err := (&keyUpdateMsg{updateRequested: false}).marshal()
+		if err != nil {
+			return err
+		}
+		rec = append(rec, msgBytes...)
+	}
+	if _, err := c.writeRecordLocked(recordTypeHandshake, rec); err != nil {
+		return err
+	}
+	secret := c.out.trafficSecret
+	for i := 0; i < n; i++ {
+		secret = cipherSuite.nextTrafficSecret(secret)
+	}
+	c.out.setTrafficSecret(cipherSuite, QUICEncryptionLevelInitial, secret)
+	return nil
+}
